@@ -249,7 +249,7 @@ def generate(seed, tier):
 REF_QUALIFIERS = [None, None, 'Gone!', "'Q1 data'!", "'Bob''s data'!",
                   "'it''s ''x'''!", '[1]Gone!', "'[old book.xlsx]Gone'!",
                   "'[3]Bob''s'!", '>A1', '>$B$2', '>A1:B2', '>$C:$C', '>2:3',
-                  'lower']
+                  'lower', 'legacy', 'legacy']
 
 
 def instantiate(world, points, on):
